@@ -504,9 +504,13 @@ def fault_workload(task):
                 window = [x for x in ops2 if b < x.ticket < tk]
                 first_fault = min([x.ticket for x in window if x.op == fsimage.FAULT] or [tk])
                 # its record reached the log (and, if asked for, the disk) before anything failed
-                wrote = [x.ticket for x in window if x.op == fsimage.WRITE and "/wal/" in x.p1 and x.ticket < first_fault]
-                cut = [x.ticket for x in window if x.op == fsimage.FTRUNC and "/wal/" in x.p1]
-                logged_ok[t] = bool(wrote) and not any(c > wrote[0] for c in cut)
+                wrote = {}
+                for x in window:
+                    if x.op == fsimage.WRITE and "/wal/" in x.p1 and x.ticket < first_fault:
+                        wrote.setdefault(x.p1, x.ticket)
+                    elif x.op == fsimage.FTRUNC and x.p1 in wrote:
+                        del wrote[x.p1]                 # cut back again: that copy of the record is gone
+                logged_ok[t] = bool(wrote)
             fs = fsimage.FsState(os.path.join(wdir, "db"))
             for o in ops2:
                 fs.apply(o)
